@@ -138,6 +138,56 @@ def p8_trace(pat, ov, lpat, lov, code, version, focus):
     return rec, info
 
 
+DEFAULT_ROW = {'gfx': b'0' * 128, 'gff': b'0' * 256, 'map': b'0' * 256, 'music': b'00 41424344'}
+
+
+def truncate_p8(data):
+    """the same cart in the shape PICO-8 itself saves: rows at the end of the gfx / gff / map / music sections that hold
+    only default data are left out, a section left without rows is left out altogether (a pure text operation)"""
+    lines = data.split(b'\n')
+    out = []
+    i = 0
+    while i < len(lines):
+        l = lines[i]
+        name = l[2:-2].decode('latin1') if (len(l) > 4 and l.startswith(b'__') and l.endswith(b'__')) else None
+        if name in DEFAULT_ROW:
+            j = i + 1
+            while j < len(lines) and not (lines[j].startswith(b'__') and lines[j].endswith(b'__') and len(lines[j]) > 4):
+                j += 1
+            rows = [x for x in lines[i + 1:j] if x.strip()]
+            while rows and rows[-1] == DEFAULT_ROW[name]:
+                rows.pop()
+            if rows:
+                out.append(l)
+                out += rows
+            i = j
+        else:
+            out.append(l)
+            i += 1
+    text = b'\n'.join(out)
+    return text if text.endswith(b'\n') else text + b'\n'      # (every line of a saved file ends in a newline)
+
+
+def p8_truncated_trace(pat, ov, version):
+    """C16, reading direction: the file picotool wrote, cut down to the shape PICO-8 saves, must load to the same memory"""
+    mem = memory(pat, ov)
+    g = make_game(mem, b'x=1\n', None, version)
+    data = truncate_p8(write_p8(g))
+    header, rows, cps, names = p8_observation(data)
+    rec = {'pat': list(pat), 'ov': {str(k): v for k, v in ov.items()}, 'lpat': [], 'lov': {}, 'code': list(b'x=1\n'), 'version': version, 'header': header,
+           'rows': rows, 'lua': cps, 'focus': 'C16', 'truncated': True,
+           'rb': {'diff': [], 'code': [], 'labelPresent': False, 'labelDiff': [], 'version': -1}, 'rewriteSame': False}
+    err = None
+    try:
+        g2 = read_p8(data)
+        rec['rb']['diff'] = diff_list(mem, game_memory(g2))
+        rec['rb']['version'] = g2.version
+    except Exception as e:  # noqa
+        err = '%s: %s' % (type(e).__name__, str(e)[:80])
+        rec['rb']['diff'] = [[-2, 0]]
+    return rec, {'file': data, 'error': err, 'rows': {k: len(v) for k, v in rows.items()}}
+
+
 def lua_section_points(data):
     return p8_observation(data)[2]
 
@@ -186,8 +236,9 @@ def default_row_overrides(rnd):
             if rnd.randrange(4) == 0:
                 continue
             q = rnd.choice((0, 1, nrows - 1, r))
+            u = rnd.choice((None, None, 0, 0, 255))      # or a row of one byte value throughout (all zero: not even the default header)
             for i in range(rowlen):
-                ov[start + r * rowlen + i] = E[start + q * rowlen + i]
+                ov[start + r * rowlen + i] = E[start + q * rowlen + i] if u is None else u
     return ov
 
 
